@@ -41,7 +41,7 @@ struct Shared {
     violations: std::sync::Mutex<Vec<(String, String)>>,
 }
 
-fn run_program(ti: usize, bars: &[ProgressBar], mp: &Option<MultiProgress>, ops: &[Op], sh: &Shared, installed: &mut Vec<bool>) {
+fn run_program(ti: usize, bars: &[ProgressBar], mp: &Option<MultiProgress>, anchor: &Option<ProgressBar>, ops: &[Op], sh: &Shared, installed: &mut Vec<bool>) {
     for (i, op) in ops.iter().enumerate() {
         let b = (op.n0() as usize) % bars.len();
         let pb = &bars[b];
@@ -159,6 +159,25 @@ fn run_program(ti: usize, bars: &[ProgressBar], mp: &Option<MultiProgress>, ops:
                     nb.finish();
                 }
             }),
+            // insertion relative to a member that is never removed, and calls on that member
+            "mp_insert_rel" => call(|| {
+                if let (Some(mp), Some(anchor)) = (mp, anchor) {
+                    let nb = ProgressBar::with_draw_target(Some(3), ProgressDrawTarget::hidden());
+                    let nb = if op.n1() % 2 == 0 { mp.insert_after(anchor, nb) } else { mp.insert_before(anchor, nb) };
+                    nb.tick();
+                    nb.finish();
+                }
+            }),
+            "anchor_op" => call(|| {
+                if let Some(anchor) = anchor {
+                    match op.n1() % 4 {
+                        0 => anchor.tick(),
+                        1 => anchor.inc(1),
+                        2 => anchor.update(|s| s.set_pos(3)),
+                        _ => anchor.set_message("a"),
+                    }
+                }
+            }),
             "mp_align" => call(|| {
                 if let Some(mp) = mp {
                     mp.set_alignment(if op.n1() % 2 == 0 { indicatif::MultiProgressAlignment::Top } else { indicatif::MultiProgressAlignment::Bottom });
@@ -219,6 +238,9 @@ fn exec_race(sc: &Scenario) -> Report {
             };
             bars.push(pb);
         }
+        let anchor: Option<ProgressBar> = mp
+            .as_ref()
+            .map(|mp| mp.add(ProgressBar::with_draw_target(Some(9), ProgressDrawTarget::hidden())));
         let sh = Arc::new(Shared {
             tickers_allowed: AtomicI64::new(0),
             violations: std::sync::Mutex::new(vec![]),
@@ -227,11 +249,13 @@ fn exec_race(sc: &Scenario) -> Report {
         for (ti, ops) in sc.threads.iter().enumerate().skip(1) {
             let my_bars: Vec<ProgressBar> = bars.iter().map(|b| b.clone()).collect();
             let my_mp = mp.clone();
+            let my_anchor = anchor.clone();
             let ops = ops.clone();
             let sh2 = sh.clone();
             handles.push(verif_simrt::thread::spawn_named(&format!("user-{ti}"), move || {
                 let mut installed = vec![false; my_bars.len()];
-                run_program(ti, &my_bars, &my_mp, &ops, &sh2, &mut installed);
+                run_program(ti, &my_bars, &my_mp, &my_anchor, &ops, &sh2, &mut installed);
+                drop(my_anchor);
                 // a thread that installed a ticker and leaves it installed: the ticker lives on
                 // with the bar; it is still "allowed"
                 drop(my_bars);
@@ -240,7 +264,7 @@ fn exec_race(sc: &Scenario) -> Report {
         }
         let ops0 = sc.threads.first().cloned().unwrap_or_default();
         let mut installed = vec![false; bars.len()];
-        run_program(0, &bars, &mp, &ops0, &sh, &mut installed);
+        run_program(0, &bars, &mp, &anchor, &ops0, &sh, &mut installed);
         for h in handles {
             if let Err(p) = h.join() {
                 r.violate("C08.no_panic", format!("user thread panicked: {}", sched::panic_message(&p)));
@@ -252,6 +276,7 @@ fn exec_race(sc: &Scenario) -> Report {
         let dr = call(|| {
             sched::no_time_scope(|| {
                 drop(bars);
+                drop(anchor);
                 drop(mp);
             })
         });
@@ -318,6 +343,16 @@ fn exec_ticker(sc: &Scenario) -> Report {
         for (i, op) in ops.iter().enumerate() {
             let at = format!("op#{i} {}", op.short());
             let flush_before = term.flushes();
+            // the call goes through a temporary second handle: a clone, or a weak handle
+            // upgraded again; both share the bar and its ticker with the original
+            let via = (sc.c("handle_mask") >> (2 * (i % 30))) & 3;
+            let pb_main = &pb;
+            let tmp: Option<ProgressBar> = match via {
+                1 => Some(pb_main.clone()),
+                2 => pb_main.downgrade().upgrade(),
+                _ => None,
+            };
+            let pb = tmp.as_ref().unwrap_or(pb_main);
             let res = match op.k.as_str() {
                 "enable" => {
                     let r0 = call(|| sched::no_time_scope(|| pb.enable_steady_tick(d)));
@@ -341,7 +376,7 @@ fn exec_ticker(sc: &Scenario) -> Report {
                     if installed {
                         finished_with_ticker = true;
                     }
-                    call(|| apply_finish(&pb, op.n0(), "fin"))
+                    call(|| apply_finish(pb, op.n0(), "fin"))
                 }
                 "reset" => {
                     // a finished bar goes back to work; the ticker thread of a finished bar has
@@ -388,6 +423,10 @@ fn exec_ticker(sc: &Scenario) -> Report {
             if let Err(p) = res {
                 r.violate("C08.no_panic", format!("{at} panicked: {p}"));
             }
+            if tmp.is_some() {
+                r.probe(if via == 2 { "call_through_upgraded_weak_handle" } else { "call_through_clone" });
+            }
+            drop(tmp);
             // spinner rule over the frames painted during this op
             let (snaps, log): (Vec<(u64, Vec<String>)>, Vec<(u64, u64, u64, usize)>) = {
                 let t = term.lock();
@@ -461,7 +500,7 @@ impl Check for C08 {
         "C08"
     }
     fn rule_text(&self) -> String {
-        "race: 2..3 simulated user threads each run 2..6 calls of update/enable_steady_tick/disable_steady_tick/tick/inc/set_message/println/suspend/finish/is_finished/getters/clone+drop/reset/set_length/mp.println/mp.suspend/mp.clear/mp.remove/mp.add (re-attach)/finish through a clone dropped on the same thread/set_style/message+prefix+elapsed+duration+per_sec+style getters/downgrade+upgrade/wrap_iter completion/mp.insert+insert_from_back+add of a fresh bar/mp.set_alignment/advance/sleep on 1..3 shared bars (standalone or in a MultiProgress, hidden or on a simulated terminal), tick intervals 1 ms..10 h, under a seeded random / sticky / PCT scheduler with spurious condvar wake-ups and clock jitter; every lock, condvar, spawn, join (and optionally atomic) is a scheduling point. Oracles: no deadlock (no runnable thread and no pending timer; wait-for graph reported), all threads terminate once all handles are gone, disable/replace/drop return without the virtual clock having to move and leave no ticker thread behind. ticker: one user thread with phases enable / sleep k intervals / manual tick / inc / set_message / finish / disable: the ticker paints >= k-1 frames while idle, manual ticks do not advance the spinner, consecutive ticker frames advance it by one, no ticker frames after stop, the ticker thread is gone after finish (within two intervals), disable and drop. Non-trivial: race = >= 2 threads with operations; ticker = >= 2 phases. Distinct = distinct scenario hash; distinct interleavings reported separately.".into()
+        "race: 2..3 simulated user threads each run 2..6 calls of update/enable_steady_tick/disable_steady_tick/tick/inc/set_message/println/suspend/finish/is_finished/getters/clone+drop/reset/set_length/mp.println/mp.suspend/mp.clear/mp.remove/mp.add (re-attach)/finish through a clone dropped on the same thread/set_style/message+prefix+elapsed+duration+per_sec+style getters/downgrade+upgrade/wrap_iter completion/mp.insert+insert_from_back+add of a fresh bar/insert_before+insert_after relative to a permanent member that other threads tick and update/mp.set_alignment/advance/sleep on 1..3 shared bars (standalone or in a MultiProgress, hidden or on a simulated terminal), tick intervals 1 ms..10 h, under a seeded random / sticky / PCT scheduler with spurious condvar wake-ups and clock jitter; every lock, condvar, spawn, join (and optionally atomic) is a scheduling point. Oracles: no deadlock (no runnable thread and no pending timer; wait-for graph reported), all threads terminate once all handles are gone, disable/replace/drop return without the virtual clock having to move and leave no ticker thread behind. ticker: one user thread with phases enable / sleep k intervals / manual tick / inc / set_message / finish / disable: the ticker paints >= k-1 frames while idle, manual ticks do not advance the spinner, consecutive ticker frames advance it by one, no ticker frames after stop, the ticker thread is gone after finish (within two intervals), disable and drop. Non-trivial: race = >= 2 threads with operations; ticker = >= 2 phases. Distinct = distinct scenario hash; distinct interleavings reported separately.".into()
     }
     fn assumptions(&self) -> Vec<String> {
         vec![
@@ -512,6 +551,14 @@ impl Check for C08 {
             let mut sc = Scenario::new("C08", "ticker", rng.next_u64());
             sc.set("interval", rng.below(5));
             sc.set("on_finish", rng.below(5));
+            if rng.chance(1, 2) {
+                // two bits per call: 0 = original handle, 1 = clone, 2 = upgraded weak handle
+                let mut m = 0u64;
+                for k in 0..30 {
+                    m |= rng.weighted(&[3, 1, 2]) as u64 * (1 << (2 * k));
+                }
+                sc.set("handle_mask", m);
+            }
             gen_sched_cfg(&mut sc, rng, 80);
             let mut ops = vec![];
             let n = rng.range(2, if tier == Tier::Quick { 8 } else { 14 });
@@ -546,7 +593,7 @@ impl Check for C08 {
             for _ in 0..n {
                 let b = rng.below(nb);
                 let owner = (b as usize) % nt == ti;
-                let k = rng.weighted(&[8, if owner { 6 } else { 0 }, if owner { 5 } else { 0 }, 4, 4, 3, 2, 2, 3, 2, 2, 2, 1, 1, 1, 1, 1, 3, 2, 2, 2, 1, 1, 1, 1, 1, 1, 1]);
+                let k = rng.weighted(&[8, if owner { 6 } else { 0 }, if owner { 5 } else { 0 }, 4, 4, 3, 2, 2, 3, 2, 2, 2, 1, 1, 1, 1, 1, 3, 2, 2, 2, 1, 1, 1, 1, 1, 1, 1, 2, 2]);
                 ops.push(match k {
                     0 => Op::new("update").n(b).n(rng.below(100)),
                     1 => Op::new("enable_steady_tick").n(b).n(rng.below(5)),
@@ -575,6 +622,8 @@ impl Check for C08 {
                     25 => Op::new("iter").n(b).n(rng.below(4)),
                     26 => Op::new("mp_insert").n(b).n(rng.below(3)),
                     27 => Op::new("mp_align").n(b).n(rng.below(2)),
+                    28 => Op::new("mp_insert_rel").n(b).n(rng.below(2)),
+                    29 => Op::new("anchor_op").n(b).n(rng.below(4)),
                     _ => Op::new("sleep").n(0).n(*rng.pick(&[1_000_000, 15_000_000])),
                 });
             }
@@ -590,6 +639,6 @@ impl Check for C08 {
         }
     }
     fn shrink_cfg(&self) -> Vec<(&'static str, u64)> {
-        vec![("use_mp", 0), ("visible", 0), ("now_jitter_ns", 0), ("spurious_pm", 0), ("n_bars", 1), ("atomics_yield", 0)]
+        vec![("handle_mask", 0), ("use_mp", 0), ("visible", 0), ("now_jitter_ns", 0), ("spurious_pm", 0), ("n_bars", 1), ("atomics_yield", 0)]
     }
 }
